@@ -14,6 +14,7 @@
   prescribes.
 -/
 import AQ.Proofs.Ack
+import AQ.Proofs.AckRun
 
 namespace AQ.Props.C12
 open AQ AQ.Ack AQ.RangeSet
@@ -148,6 +149,59 @@ theorem ack_next_tx {F} (s s' : Space F) (pn : Nat) (a : F) (kv so af : Bool) (d
       rw [hv]
       exact pushAckFrame_complete _ _ _ _ _ hpf (by rw [← hn]; exact hfit) pn hp.queued
 
+/-! ## Run-level statements (one packet-number space under all interleavings of its events:
+     receive / ACK-of-ACK / discard / send calls; monitors in AQ.Model.AckSpec) -/
+
+/-- TIMELINESS, application space, at full strength on the model.  For every sequence of events
+    whose environment is `EnvApp` — the clock does not run backwards; the caller honours the timer
+    (while `ack_at = a` is armed no event happens later than `a + ε`); when an ACK is due the send
+    call is possible (handshake complete, 1-RTT keys, builder room: C13 `builder_raises_only_stop`
+    and the budgets of `AQ.Amp`); every range fits (`fits_of_few_ranges`); ACK-of-ACK deliveries
+    are for ACK frames that were sent (C08 `callbacks at most once per sent packet`) — the monitor
+    `monApp` never trips: every ack-eliciting packet that carried the highest packet number at its
+    arrival is covered by an ACK frame emitted no later than `arrival + ack_delay + ε`.
+    That the timer is armed whenever such a packet is unacknowledged, that a further arrival never
+    moves `ack_at` later, and that an ACK-of-ACK never cancels a pending `ack_at` are DERIVED
+    (invariant `JApp`), not assumed. -/
+theorem ack_timely_run {F} (A : FArith F) (hT : TimeOk A) (delay eps start : F) (ops : List (SOp F))
+    (henv : EnvApp A delay eps {} start ops) :
+    runMon A delay (monApp A delay eps) {} [] ops ≠ .ok none :=
+  app_run_ok A hT delay eps ops {} [] start
+    ⟨sinv_init, fun o ho => (by cases ho), fun a ha => (by cases ha)⟩ henv
+
+/-- TIMELINESS, Initial / Handshake spaces: for every sequence of events (every range fits,
+    ACK-of-ACK deliveries are for frames that were sent) the monitor `monHs` never trips: the next
+    packet transmitted in the space carries an ACK frame covering every ack-eliciting packet that
+    carried the highest number at its arrival.  No timing or caller hypothesis. -/
+theorem ack_next_tx_run {F} (A : FArith F) (delay : F) (ops : List (SOp F)) (henv : EnvHs A delay {} ops) :
+    runMon A delay monHs {} [] ops ≠ .ok none :=
+  hs_run_ok A delay ops {} [] ⟨sinv_init, fun o ho => (by cases ho)⟩ henv
+
+/-- SOUNDNESS at full strength: over ALL interleavings of receive / send / ACK-of-ACK / discard
+    events of a space, every packet number in every range of every emitted ACK frame authenticated
+    in that space before the frame was written.  No hypothesis. -/
+theorem ack_sound_run {F} (A : FArith F) (delay : F) (ops : List (SOp F)) : FramesSound A delay {} ops :=
+  frames_sound_run A delay ops {} sinv_init
+
+/-- an ACK-of-ACK delivery for the frame registered with handler argument `h` (the largest number
+    received when that frame was written) removes exactly the queued numbers ≤ h.  When that frame
+    was complete (`Fits`) these were all in it — except numbers recorded AFTER it was written: the
+    strong reading "only ranges the peer has seen acknowledged" is false for the code, see
+    `ack_of_ack_prunes_late_arrival` -/
+theorem ack_of_ack_prunes_exactly {F} (s s' : Space F) (h : Int) (hi : SInv s) (he : onAckDelivery s h = .ok s')
+    (x : Nat) : (mem x s.ackQueue ∧ ¬ mem x s'.ackQueue) ↔ (mem x s.ackQueue ∧ (x : Int) ≤ h) :=
+  aoa_prunes_exactly hi he x
+
+/-- a complete frame reports the whole queue (so what a later ACK-of-ACK for it prunes was
+    either reported in it or recorded after it) -/
+theorem complete_frame_reports_queue {F} (s s' : Space F) (de : Nat) (ms : Option Int) (f : AckFrame) (hi : SInv s)
+    (hw : writeAck s de ms = .ok (s', f)) (hfit : Fits s de ms) : ∀ pn, mem pn s.ackQueue → covers f pn = true :=
+  (writeAck_clears_all hi hw hfit).2
+
+/-- `Fits` is implied by a bound on the number of ranges the peer's gaps create -/
+theorem fits_of_few_ranges {F} (s : Space F) (de : Nat) (m : Int) (h : 32 + 16 * ((s.ackQueue.length : Int) - 1) ≤ m) :
+    Fits s de (some m) := AQ.Ack.fits_of_few_ranges s de m h
+
 /-! non-vacuity: packets 3 and 5 arrive, an ACK covering both ranges is written -/
 def demoFloat : FArith Nat :=
   { add := (· + ·), sub := (· - ·), mul := (· * ·), div := (· / ·), pow := (· ^ ·), neg := id, abs := id,
@@ -162,6 +216,39 @@ example : (run demoFloat (Conn.init 1)
       (fun r => r.2.getLast?) = some (some (.tx (.ack { values := [5, 0, 1, 0, 0, 0], ranges := 2, highest := 5 }))) := by
   decide
 
+example : TimeOk demoFloat := by
+  refine { irrefl := ?_, asymm := ?_, ge_trans := ?_, le_not_lt := ?_, add_mono := ?_ } <;> simp [demoFloat] <;> omega
+
+/-- the monitor opens obligations for 3 and 5 and the ACK written at 101 closes both -/
+example : (runMon demoFloat 1 (monApp demoFloat 1 0) {} []
+    [.rx 3 true 100 true [], .rx 5 true 100 true [], .txApp 101 true true false true true 0 none]).toOption
+      = some (some []) := by decide
+
+/-- ... and it does trip when the caller lets time pass the deadline without a send call -/
+example : (runMon demoFloat 1 (monApp demoFloat 1 0) {} []
+    [.rx 3 true 100 true [], .rx 5 true 103 true []]).toOption = some none := by decide
+
+/-- the environment of `ack_timely_run` is satisfiable by such a run -/
+example : EnvApp demoFloat 1 0 {} 0 [.rx 3 true 100 true [], .txApp 101 true true false true true 0 none] := by
+  refine ⟨by simp [SOp.time, demoFloat], by simp [envOp], ?_⟩
+  intro s' out he
+  have : s' = record demoFloat 1 { received := [3] } 3 true 100 := by
+    simp [sstep, rxPacket, isDuplicate, RangeSet.contains, deliverAll, bind, Except.bind, pure, Except.pure] at he
+    exact he.1.symm
+  subst this
+  refine ⟨by simp [SOp.time, clockOf, record, demoFloat, RangeSet.add], ⟨by simp, fits_none _ _⟩, ?_⟩
+  intro _ _ _; trivial
+
+/-- the strong reading of "ACK-of-ACK only removes what the peer saw acknowledged" fails: 4 arrives
+    after the frame for {3,5} (handler argument 5) was written; the ACK-of-ACK for that frame
+    removes 4 although no frame ever reported it -/
+theorem ack_of_ack_prunes_late_arrival :
+    ∃ s1 f s2 s3, txApplication demoFloat
+        (record demoFloat 1 (record demoFloat 1 ({} : Space Nat) 3 true 100) 5 true 100) 101 true true false true true 0 none
+        = .ok (s1, .ack f) ∧ covers f 4 = false ∧ s2 = record demoFloat 1 s1 4 true 102 ∧ RangeSet.contains 4 s2.ackQueue = true
+      ∧ onAckDelivery s2 5 = .ok s3 ∧ s3.ackQueue = [] := by
+  refine ⟨_, _, _, _, rfl, by decide, rfl, by decide, rfl, by decide⟩
+
 end AQ.Props.C12
 
 #print axioms AQ.Props.C12.ack_sound
@@ -173,3 +260,10 @@ end AQ.Props.C12
 #print axioms AQ.Props.C12.ack_largest_always_written
 #print axioms AQ.Props.C12.ack_timer_le
 #print axioms AQ.Props.C12.ack_next_tx
+#print axioms AQ.Props.C12.ack_timely_run
+#print axioms AQ.Props.C12.ack_next_tx_run
+#print axioms AQ.Props.C12.ack_sound_run
+#print axioms AQ.Props.C12.ack_of_ack_prunes_exactly
+#print axioms AQ.Props.C12.complete_frame_reports_queue
+#print axioms AQ.Props.C12.fits_of_few_ranges
+#print axioms AQ.Props.C12.ack_of_ack_prunes_late_arrival
